@@ -36,6 +36,15 @@ func c12Eval(count uint32, hs []h32, ps []*chainhash.Hash, flags []byte) (string
 	msg := wire.MsgMerkleBlock{Transactions: count, Hashes: ps, Flags: flags}
 	pb := merkleblock.NewMerkleBlockFromMsg(msg)
 	got := pb.ExtractMatches()
+	// the message is an argument: its hash list must be left as it was (same pointers, same values)
+	if len(msg.Hashes) != len(hs) {
+		return "", fmt.Errorf("ExtractMatches(count=%d, flags %x) changed the length of the message's hash list", count, flags)
+	}
+	for i := range hs {
+		if msg.Hashes[i] != ps[i] || h32(*msg.Hashes[i]) != hs[i] {
+			return "", fmt.Errorf("ExtractMatches(count=%d, %d hashes, flags %x) rewrote entry %d of the message's hash list", count, len(hs), flags, i)
+		}
+	}
 	root, matches, why := refPMTExtract(count, hs, flags)
 	if (got == nil) != (why != "") {
 		if got == nil {
@@ -147,6 +156,17 @@ func genC12(t *rapid.T) c12Case {
 	if rapid.IntRange(0, 9).Draw(t, "random") == 0 {
 		c := c12Case{Tag: "random"}
 		c.Count = rapid.SampledFrom([]uint32{0, 1, 2, 3, 5, 8, 100, uint32(refTxnCap()), uint32(refTxnCap()) + 1, 0xffffffff}).Draw(t, "count")
+		if rapid.Bool().Draw(t, "hugecount") {
+			// any count above the cap, with the one message shape that is well-formed for every count:
+			// a single hash and a single 0 flag bit (the root itself, unmatched)
+			c.Count = uint32(rapid.Uint64Range(refTxnCap()+1, 1<<32-1).Draw(t, "huge"))
+			c.Hashes = []HexBytes{{7}}
+			c.Flags = HexBytes{0}
+			if rapid.Bool().Draw(t, "matchedroot") {
+				c.Flags = HexBytes{1}
+			}
+			return c
+		}
 		nh := rapid.IntRange(0, 6).Draw(t, "nh")
 		for i := 0; i < nh; i++ {
 			c.Hashes = append(c.Hashes, HexBytes{byte(rapid.IntRange(1, 3).Draw(t, "h"))})
@@ -191,7 +211,7 @@ func genC12(t *rapid.T) c12Case {
 				c.Hashes[i+1] = append(HexBytes{}, c.Hashes[i]...)
 			}
 		case 5: // change the count
-			switch rapid.IntRange(0, 4).Draw(t, "cm") {
+			switch rapid.IntRange(0, 6).Draw(t, "cm") {
 			case 0:
 				c.Count++
 			case 1:
@@ -200,8 +220,10 @@ func genC12(t *rapid.T) c12Case {
 				c.Count *= 2
 			case 3:
 				c.Count = 0
-			default:
+			case 4:
 				c.Count = uint32(refTxnCap()) + uint32(rapid.IntRange(0, 1).Draw(t, "over"))
+			default: // anywhere above the cap (32-bit arithmetic on the count must not wrap back below it)
+				c.Count = uint32(rapid.Uint64Range(refTxnCap()+1, 1<<32-1).Draw(t, "huge"))
 			}
 		case 6: // truncate flags by a byte
 			if len(c.Flags) > 0 {
